@@ -10,9 +10,10 @@
   * validation/validation.py  `CrossCheckingAccurate.disparity_checking`:
         only pixels with `mask & INVALID == 0`; `+= 256; += 512 * comp; -= 256 * comp`; `mask_border`
   * validation/interpolated_disparity.py  mc-cnn: occlusion pass `-= 256 * m; += 16 * m`
-        (m = a valid pixel exists in the row), then mismatch pass `-= 512; += 32`; `mask_border`
-        sgm: mismatch pass (`-= 512; += 256` next to an occlusion, else `-= 512; += 32`), then
-        occlusion pass `-= 256; += 16`
+        (m = a valid pixel exists in the row), then mismatch pass `-= 512; += 32` when one of the 16
+        scan directions finds a valid pixel; `mask_border`
+        sgm: mismatch pass (`-= 512; += 256` next to an occlusion, else `-= 512; += 32` when a valid
+        neighbour is in sight), then occlusion pass `-= 256; += 16` when two valid neighbours are in sight
   * filter/median_for_intervals.py  `|= 2048` on regularised pixels; median / bilateral: untouched
 
   Whether a site raises its bit with `+=` or with `|=` is a parameter (`Ops`), read from the source
@@ -66,10 +67,12 @@ inductive Step where
   /-- median_for_intervals; `regularized` = the pixel is in `mask_regularization` -/
   | filterIntervals (regularized : Bool)
   | crossCheck (d : CC)
-  /-- mc-cnn interpolation; `found` = a valid pixel exists on the row of the pixel -/
-  | interpMcCnn (found : Bool)
-  /-- sgm interpolation; `nearOcc` = an occlusion lies in the 3×3 neighbourhood -/
-  | interpSgm (nearOcc : Bool)
+  /-- mc-cnn interpolation; `foundOcc` = a valid pixel exists on the row of the pixel, `foundMis` = one of the 16
+      scan directions reaches a valid pixel -/
+  | interpMcCnn (foundOcc foundMis : Bool)
+  /-- sgm interpolation; `nearOcc` = an occlusion lies in the 3×3 neighbourhood, `foundMis` = some of the 8
+      directions reaches a valid pixel, `foundOcc` = at least two do -/
+  | interpSgm (nearOcc foundMis foundOcc : Bool)
   deriving DecidableEq, Repr, Inhabited
 
 def refinePix (ops : Ops) (f : Nat) (stopped : Bool) : Nat :=
@@ -82,21 +85,22 @@ def crossCheckPix (ops : Ops) (f : Nat) (d : CC) : Nat :=
     | .occlusion => raise ops.cc (raise ops.cc f occlusion) (mismatch * 0) - occlusion * 0
     | .mismatch => raise ops.cc (raise ops.cc f occlusion) (mismatch * 1) - occlusion * 1
 
-def mcCnnPix (ops : Ops) (f : Nat) (found : Bool) : Nat :=
-  let m : Nat := if found then 1 else 0
+def mcCnnPix (ops : Ops) (f : Nat) (foundOcc foundMis : Bool) : Nat :=
+  let m : Nat := if foundOcc then 1 else 0
   -- interpolate_occlusion_mc_cnn
   let f1 := if (f &&& occlusion) != 0 then raise ops.fill (f - occlusion * m) (filledOcclusion * m) else f
   -- interpolate_mismatch_mc_cnn
-  if (f1 &&& mismatch) != 0 then raise ops.fill (f1 - mismatch) filledMismatch else f1
+  if (f1 &&& mismatch) != 0 then (if foundMis then raise ops.fill (f1 - mismatch) filledMismatch else f1) else f1
 
-def sgmPix (ops : Ops) (f : Nat) (nearOcc : Bool) : Nat :=
+def sgmPix (ops : Ops) (f : Nat) (nearOcc foundMis foundOcc : Bool) : Nat :=
   -- interpolate_mismatch_sgm
   let f1 :=
     if (f &&& mismatch) != 0 then
-      (if nearOcc then raise ops.fill (f - mismatch) occlusion else raise ops.fill (f - mismatch) filledMismatch)
+      (if nearOcc then raise ops.fill (f - mismatch) occlusion
+       else (if foundMis then raise ops.fill (f - mismatch) filledMismatch else f))
     else f
   -- interpolate_occlusion_sgm
-  if (f1 &&& occlusion) != 0 then raise ops.fill (f1 - occlusion) filledOcclusion else f1
+  if (f1 &&& occlusion) != 0 then (if foundOcc then raise ops.fill (f1 - occlusion) filledOcclusion else f1) else f1
 
 /-- `mask_border` seen from one pixel; `border` = `offset > 0` and the pixel lies in the border -/
 def borderPix (border : Bool) (f : Nat) : Nat := if border then leftNodataOrBorder else f
@@ -107,8 +111,8 @@ def stepFlag (ops : Ops) (border : Bool) (s : Step) (f : Nat) : Nat :=
   | .filter => f
   | .filterIntervals reg => if reg then raise ops.reg f intervalRegularized else f
   | .crossCheck d => borderPix border (crossCheckPix ops f d)
-  | .interpMcCnn found => borderPix border (mcCnnPix ops f found)
-  | .interpSgm nearOcc => sgmPix ops f nearOcc
+  | .interpMcCnn fo fm => borderPix border (mcCnnPix ops f fo fm)
+  | .interpSgm nearOcc fm fo => sgmPix ops f nearOcc fm fo
 
 def runFlags (ops : Ops) (border : Bool) (steps : List Step) (f : Nat) : Nat :=
   steps.foldl (fun f s => stepFlag ops border s f) f
@@ -126,52 +130,49 @@ def inBorder (rows cols off r c : Nat) : Bool :=
 def maskBorderGrid (off : Nat) (g : Grid Nat) : Grid Nat :=
   if off > 0 then mapIdx2 g fun r c f => if inBorder g.length (g.headD []).length off r c then 1 else f else g
 
-/-- occlusion pass then mismatch pass of mc-cnn, then `mask_border` when `off > 0` -/
-def mcCnnGrid (ops : Ops) (off : Nat) (g : Grid Nat) : Grid Nat :=
-  let g1 := g.map fun row =>
-    let found := row.any fun v => !isInvalid v
-    row.map fun f =>
-      let m : Nat := if found then 1 else 0
-      if (f &&& occlusion) != 0 then raise ops.fill (f - occlusion * m) (filledOcclusion * m) else f
-  let g2 := g1.map fun row => row.map fun f =>
-    if (f &&& mismatch) != 0 then raise ops.fill (f - mismatch) filledMismatch else f
-  maskBorderGrid off g2
-
-/-- mismatch pass then occlusion pass of sgm (no `mask_border`) -/
-def sgmGrid (ops : Ops) (g : Grid Nat) : Grid Nat :=
+/-- mc-cnn on a whole mask: the values the model allows at each pixel — `foundOcc` is decided by the flags of the
+    row (a pixel that is not invalid exists), `foundMis` is left open -/
+def mcCnnAllowed (ops : Ops) (off : Nat) (g : Grid Nat) : Grid (List Nat) :=
   let rows := g.length
   let cols := (g.headD []).length
-  let g1 := mapIdx2 g fun r c f =>
-    if (f &&& mismatch) != 0 then
-      let near := (List.range 3).any fun i => (List.range 3).any fun j =>
-        decide (1 ≤ r + i ∧ r + i - 1 < rows ∧ 1 ≤ c + j ∧ c + j - 1 < cols)
-          && ((getD2 g (r + i - 1) (c + j - 1) &&& occlusion) != 0)
-      if near then raise ops.fill (f - mismatch) occlusion else raise ops.fill (f - mismatch) filledMismatch
-    else f
-  g1.map fun row => row.map fun f =>
-    if (f &&& occlusion) != 0 then raise ops.fill (f - occlusion) filledOcclusion else f
+  mapIdx2 g fun r c f =>
+    let fo := (g.getD r []).any fun v => !isInvalid v
+    let border := decide (off > 0) && inBorder rows cols off r c
+    [false, true].map fun fm => stepFlag ops border (.interpMcCnn fo fm) f
+
+/-- sgm on a whole mask: `nearOcc` is decided by the flags of the 3 × 3 neighbourhood, the two "valid neighbour in
+    sight" decisions are left open -/
+def sgmAllowed (ops : Ops) (g : Grid Nat) : Grid (List Nat) :=
+  let rows := g.length
+  let cols := (g.headD []).length
+  mapIdx2 g fun r c f =>
+    let near := (List.range 3).any fun i => (List.range 3).any fun j =>
+      decide (1 ≤ r + i ∧ r + i - 1 < rows ∧ 1 ≤ c + j ∧ c + j - 1 < cols)
+        && ((getD2 g (r + i - 1) (c + j - 1) &&& occlusion) != 0)
+    [(false, false), (false, true), (true, false), (true, true)].map fun d => stepFlag ops false (.interpSgm near d.1 d.2) f
 
 /-! ### Specification: what a later step may do to the flag of a pixel (declarative, executable) -/
 
-/-- the bits a step may raise: refinement 3; cross-checking 8/9; interpolation 4/5; intervals 11 -/
+/-- the bits a step may raise: refinement 3; cross-checking 8/9; interpolation 4/5 (sgm may also turn a mismatch
+    next to an occlusion into an occlusion: 9 → 8); intervals 11 -/
 def ownRaise : Step → Nat
   | .refine _ => stoppedInterpolation
   | .filter => 0
   | .filterIntervals _ => intervalRegularized
   | .crossCheck _ => occlusion + mismatch
-  | .interpMcCnn _ => filledOcclusion + filledMismatch
-  | .interpSgm _ => filledOcclusion + filledMismatch
+  | .interpMcCnn _ _ => filledOcclusion + filledMismatch
+  | .interpSgm _ _ _ => filledOcclusion + filledMismatch + occlusion
 
 /-- the bits a step may clear: the interpolations replace 8/9 by 4/5 -/
 def mayClear : Step → Nat
-  | .interpMcCnn _ => occlusion + mismatch
-  | .interpSgm _ => occlusion + mismatch
+  | .interpMcCnn _ _ => occlusion + mismatch
+  | .interpSgm _ _ _ => occlusion + mismatch
   | _ => 0
 
 /-- does the step rewrite border pixels with `mask_border` -/
 def rewritesBorder : Step → Bool
   | .crossCheck _ => true
-  | .interpMcCnn _ => true
+  | .interpMcCnn _ _ => true
   | _ => false
 
 /-- `later_steps_own_bits`: every bit of the 12 documented ones that is newly set is one of the step's own -/
@@ -186,10 +187,26 @@ def nothingElseCleared (s : Step) (before after : Nat) : Bool :=
 /-- `no_undocumented_bit` -/
 def documentedOnly (f : Nat) : Bool := decide (f < 4096)
 
+/-- `later_steps_own_bits`, second half — how the own bits relate: the cross-checking never leaves a pixel both
+    occluded and mismatched; an interpolation raises 4 (resp. 5) only in replacement of 8 (resp. 9) — sgm also of a
+    mismatch it treats as an occlusion (9 → 8 → 4, or 9 → 8 when it cannot be filled) -/
+def replacementOK (s : Step) (before after : Nat) : Bool :=
+  match s with
+  | .crossCheck _ => !(after.testBit 8 && after.testBit 9) || (before.testBit 8 && before.testBit 9)
+  | .interpMcCnn _ _ =>
+      (!(after.testBit 4 && !before.testBit 4) || (before.testBit 8 && !after.testBit 8))
+      && (!(after.testBit 5 && !before.testBit 5) || (before.testBit 9 && !after.testBit 9))
+  | .interpSgm _ _ _ =>
+      (!(after.testBit 4 && !before.testBit 4) || ((before.testBit 8 || before.testBit 9) && !after.testBit 8))
+      && (!(after.testBit 5 && !before.testBit 5) || (before.testBit 9 && !after.testBit 9))
+      && (!(after.testBit 8 && !before.testBit 8) || (before.testBit 9 && !after.testBit 9))
+  | _ => true
+
 /-- image-border pixels carry bit 0 only, after every step; the other pixels change only by the step's own bits -/
 def stepOK (border : Bool) (s : Step) (before after : Nat) : Bool :=
   if border then after == leftNodataOrBorder
-  else onlyOwnRaised s before after && nothingElseCleared s before after && documentedOnly after
+  else onlyOwnRaised s before after && replacementOK s before after && nothingElseCleared s before after
+    && documentedOnly after
 
 /-- all the steps of a run satisfy `stepOK` -/
 def runOK (ops : Ops) (border : Bool) : List Step → Nat → Bool
@@ -201,7 +218,7 @@ def failingStepClauses (border : Bool) (s : Step) (before after : Nat) : List St
   let chk (name : String) (ok : Bool) : List String := if ok then [] else [name]
   if border then chk "border_bit0_only" (after == leftNodataOrBorder)
   else
-    chk "later_steps_own_bits" (onlyOwnRaised s before after)
+    chk "later_steps_own_bits" (onlyOwnRaised s before after && replacementOK s before after)
     ++ chk "bits_independent" (nothingElseCleared s before after)
     ++ chk "no_undocumented_bit" (documentedOnly after)
 
@@ -212,8 +229,10 @@ def outcomes (ops : Ops) (border : Bool) (kind : String) (f : Nat) : List Nat :=
   | "filter" => [f]
   | "filter_intervals" => [stepFlag ops border (.filterIntervals false) f, stepFlag ops border (.filterIntervals true) f]
   | "cross_checking" => [CC.consistent, CC.mismatch, CC.occlusion].map fun d => stepFlag ops border (.crossCheck d) f
-  | "mc_cnn" => [stepFlag ops border (.interpMcCnn false) f, stepFlag ops border (.interpMcCnn true) f]
-  | "sgm" => [stepFlag ops border (.interpSgm false) f, stepFlag ops border (.interpSgm true) f]
+  | "mc_cnn" => [(false, false), (false, true), (true, false), (true, true)].map fun d =>
+      stepFlag ops border (.interpMcCnn d.1 d.2) f
+  | "sgm" => [false, true].flatMap fun n => [(false, false), (false, true), (true, false), (true, true)].map fun d =>
+      stepFlag ops border (.interpSgm n d.1 d.2) f
   | _ => []
 
 /-- a representative step of a kind, for the specification (its own/clearable bits do not depend on
@@ -224,8 +243,8 @@ def stepOfKind (kind : String) : Option Step :=
   | "filter" => some .filter
   | "filter_intervals" => some (.filterIntervals false)
   | "cross_checking" => some (.crossCheck .consistent)
-  | "mc_cnn" => some (.interpMcCnn false)
-  | "sgm" => some (.interpSgm false)
+  | "mc_cnn" => some (.interpMcCnn false false)
+  | "sgm" => some (.interpSgm false false false)
   | _ => none
 
 end Pandora.FlagSteps
